@@ -434,6 +434,12 @@ class World:
         n = self.node
         Date = n.Date
         dt = dt_of(day * ts.US_DAY + us)
+        # the scale is given by name, by name in lower case, or as the Timescale object itself
+        v_ = (day + us) % 5
+        if v_ == 0:
+            scale = scale.lower()
+        elif v_ == 1:
+            scale = getattr(n.mod("beyond.dates.date"), scale)
         if ctor == "ymd":
             return Date(dt.year, dt.month, dt.day, dt.hour, dt.minute, dt.second, dt.microsecond, scale=scale)
         if ctor == "mjd_pair":
